@@ -849,6 +849,27 @@ type c20SCase struct {
 	Backend  string `json:"backend"`
 	Starters int    `json:"starters"`
 	Trials   int    `json:"trials"`
+	// Busy: the starters arrive while the registry is busy with something else. "hold" (go-metrics): a registration is
+	// in progress inside the caller-supplied go-metrics Registry (a public interface), which keeps it there until every
+	// starter is inside Start; "storm": another goroutine registers listeners and gauges in a loop while the starters
+	// arrive.
+	Busy string `json:"busy,omitempty"`
+}
+
+// heldGM is a caller-supplied go-metrics registry whose GetOrRegister can be made to take its time.
+type heldGM struct {
+	gm.Registry
+	armed   atomic.Bool
+	entered chan struct{}
+	release chan struct{}
+}
+
+func (h *heldGM) GetOrRegister(name string, v interface{}) interface{} {
+	if h.armed.CompareAndSwap(true, false) {
+		close(h.entered)
+		<-h.release
+	}
+	return h.Registry.GetOrRegister(name, v)
 }
 
 func runC20S(_ *testing.T, c c20SCase) kit.Outcome {
@@ -857,6 +878,15 @@ func runC20S(_ *testing.T, c c20SCase) kit.Outcome {
 		b, err := newBackend(c.Backend, "p", period)
 		if err != nil {
 			return kit.Outcome{Harness: err.Error()}
+		}
+		var held *heldGM
+		if c.Busy == "hold" && c.Backend == "gometrics" {
+			held = &heldGM{Registry: gm.NewRegistry(), entered: make(chan struct{}), release: make(chan struct{})}
+			r, err := gometrics.NewGoMetricsMetricRegistry(held, "", "p", period)
+			if err != nil {
+				return kit.Outcome{Harness: err.Error()}
+			}
+			b.reg, b.gmReg = r, held
 		}
 		var clock atomic.Int64
 		var mu sync.Mutex
@@ -884,8 +914,40 @@ func runC20S(_ *testing.T, c c20SCase) kit.Outcome {
 			}()
 		}
 		ready.Wait()
+		var stormStop atomic.Bool
+		var stormDone sync.WaitGroup
+		if c.Busy == "storm" {
+			stormDone.Add(1)
+			go func() {
+				defer stormDone.Done()
+				for i := 0; !stormStop.Load(); i++ {
+					b.reg.RegisterCount(fmt.Sprintf("c%d", i%7))
+					b.reg.RegisterGauge(fmt.Sprintf("h%d", i%5), func() (float64, bool) { return 0, false })
+				}
+			}()
+		}
+		if held != nil {
+			held.armed.Store(true)
+			go b.reg.RegisterDistribution("held")
+			select {
+			case <-held.entered:
+			case <-time.After(30 * time.Second):
+				close(held.release)
+				return kit.Outcome{Harness: "the registration did not reach the go-metrics registry within 30 s"}
+			}
+		}
 		gate.Store(true)
+		if held != nil {
+			// every starter is inside Start (or has returned from it) before the registration is allowed to finish;
+			// the wait only decides how much the case exercises, not what it concludes
+			waitFor(2*time.Second, func() bool {
+				return strings.Count(allStacks(), "gometrics.(*MetricRegistry).Start") >= c.Starters
+			})
+			close(held.release)
+		}
 		wg.Wait()
+		stormStop.Store(true)
+		stormDone.Wait()
 		n := func() int { mu.Lock(); defer mu.Unlock(); return len(polls) }
 		if !waitFor(30*time.Second, func() bool { return n() >= 3 }) {
 			stopRegistry(b.reg)
@@ -926,16 +988,25 @@ func runC20S(_ *testing.T, c c20SCase) kit.Outcome {
 			return kit.Viol(c.Backend+":several-pollers", "trial %d: %d goroutines called Start at the same moment: gauges were polled from %d different goroutines", trial, c.Starters, len(ids))
 		}
 	}
-	return kit.Outcome{NonTrivial: c.Starters >= 2, Labels: []string{"backend:" + c.Backend}}
+	return kit.Outcome{NonTrivial: c.Starters >= 2, Labels: []string{"backend:" + c.Backend, "busy:" + c.Busy}}
 }
 
 func TestC20_registry_parallel_start(t *testing.T) {
 	kit.RequireMode(t, "std")
 	kit.Check(t, kit.Prop[c20SCase]{
 		ID: "C20", Quick: 24, Thor: 600,
-		Rule: "2-8 real threads call Start on a fresh registry at the same moment (spin barrier), 10-30 fresh registries per case; one poller goroutine only, no poll after Stop returned (observed over 20 periods); non-trivial = at least two starters",
+		Rule: "2-8 real threads call Start on a fresh registry at the same moment (spin barrier), 10-30 fresh registries per case, on an idle registry, during a storm of registrations, or while a registration sits inside the caller-supplied go-metrics registry until every starter is inside Start; one poller goroutine only, no poll after Stop returned (observed over 20 periods); non-trivial = at least two starters",
 		Gen: func(t *rapid.T) c20SCase {
-			return c20SCase{Backend: rapid.SampledFrom([]string{"gometrics", "datadog"}).Draw(t, "backend"), Starters: rapid.IntRange(2, 8).Draw(t, "starters"), Trials: rapid.IntRange(10, 30).Draw(t, "trials")}
+			c := c20SCase{Backend: rapid.SampledFrom([]string{"gometrics", "datadog"}).Draw(t, "backend"), Starters: rapid.IntRange(2, 8).Draw(t, "starters"), Trials: rapid.IntRange(10, 30).Draw(t, "trials")}
+			c.Busy = rapid.SampledFrom([]string{"", "storm", "hold"}).Draw(t, "busy")
+			if c.Busy == "hold" {
+				if c.Backend != "gometrics" {
+					c.Busy = "storm" // nothing caller-supplied runs inside a datadog registration
+				} else {
+					c.Trials = rapid.IntRange(2, 5).Draw(t, "heldTrials")
+				}
+			}
+			return c
 		},
 		Run: runC20S, NoShrink: true,
 	})
